@@ -513,4 +513,141 @@ theorem runEffBody_sig {p : Prog} {f K e : Nat} {x : Expr} {s : State}
   have r := evalE_sig (p := p) (f := f) x _ pre hb hw ht
   exact runPost_assemble _ hke hlt hb a02 ctl02 src2 r
 
+
+/-! ## writing a signal whose subscribers are effects -/
+
+/-- `EffectInner::mark_dirty` on a live effect -/
+def wake (n : Node) : Node :=
+  if n.alive then { n with dirty := true, chan := true, woken := true } else n
+
+theorem wake_wake (n : Node) : wake (wake n) = wake n := by
+  unfold wake; split <;> simp_all
+
+@[simp] theorem wake_kind (n : Node) : (wake n).kind = n.kind := by unfold wake; split <;> rfl
+@[simp] theorem wake_subs (n : Node) : (wake n).subs = n.subs := by unfold wake; split <;> rfl
+@[simp] theorem wake_sources (n : Node) : (wake n).sources = n.sources := by unfold wake; split <;> rfl
+@[simp] theorem wake_alive (n : Node) : (wake n).alive = n.alive := by unfold wake; split <;> rfl
+@[simp] theorem wake_done (n : Node) : (wake n).done = n.done := by unfold wake; split <;> rfl
+@[simp] theorem wake_val (n : Node) : (wake n).val = n.val := by unfold wake; split <;> rfl
+@[simp] theorem wake_first (n : Node) : (wake n).first = n.first := by unfold wake; split <;> rfl
+@[simp] theorem wake_paused (n : Node) : (wake n).paused = n.paused := by unfold wake; split <;> rfl
+
+theorem markDirty_eff (f : Nat) (s : State) (x : Nat) (hk : (s.get x).kind = .eff) (hx : x < s.nodes.length) :
+    (markDirty f s x).nodes.length = s.nodes.length ∧ (markDirty f s x).obs = s.obs ∧
+      ∀ i, (markDirty f s x).get i = if i = x then wake (s.get i) else s.get i := by
+  unfold markDirty
+  simp only [hk]
+  by_cases ha : (s.get x).alive = true
+  · simp only [ha, Bool.not_true, Bool.false_eq_true, ↓reduceIte]
+    unfold notify
+    have g1 : ((s.upd x fun n => { n with dirty := true }).get x).alive = true := by
+      rw [State.get_upd_same _ _ hx]; exact ha
+    simp only [g1, Bool.not_true, Bool.false_eq_true, ↓reduceIte]
+    have key : ∀ i, (((s.upd x fun n => { n with dirty := true }).upd x fun n =>
+        { n with chan := true, woken := true }).get i) = if i = x then wake (s.get i) else s.get i := by
+      intro i
+      by_cases hi : i = x
+      · subst hi
+        rw [State.get_upd_same _ _ (by simpa using hx), State.get_upd_same _ _ hx]
+        simp [wake, ha]
+      · rw [State.get_upd_ne _ _ (Ne.symm hi), State.get_upd_ne _ _ (Ne.symm hi)]; simp [hi]
+    split
+    · refine ⟨by simp, rfl, ?_⟩
+      intro i; simp only [State.emit_get]; exact key i
+    · exact ⟨by simp, rfl, key⟩
+  · simp only [Bool.not_eq_true] at ha
+    simp only [ha, Bool.not_false, ↓reduceIte]
+    refine ⟨trivial, trivial, ?_⟩
+    intro i; split
+    · next hi => subst hi; simp [wake, ha]
+    · rfl
+
+theorem foldl_markDirty_eff (f : Nat) : ∀ (l : List Nat) (s : State),
+    (∀ x ∈ l, (s.get x).kind = .eff ∧ x < s.nodes.length) →
+    (l.foldl (markDirty f) s).nodes.length = s.nodes.length ∧ (l.foldl (markDirty f) s).obs = s.obs ∧
+      ∀ i, (l.foldl (markDirty f) s).get i = if i ∈ l then wake (s.get i) else s.get i
+  | [], s, _ => ⟨rfl, rfl, fun i => by simp⟩
+  | x :: rest, s, h => by
+    simp only [List.foldl_cons]
+    have hx := h x (by simp)
+    have m := markDirty_eff f s x hx.1 hx.2
+    have ih := foldl_markDirty_eff f rest (markDirty f s x) (by
+      intro y hy
+      have := h y (by simp [hy])
+      rw [m.2.2 y, m.1]
+      refine ⟨?_, this.2⟩
+      split
+      · rw [wake_kind]; exact this.1
+      · exact this.1)
+    refine ⟨ih.1.trans m.1, ih.2.1.trans m.2.1, ?_⟩
+    intro i
+    rw [ih.2.2 i, m.2.2 i]
+    by_cases hix : i = x
+    · subst hix; simp [wake_wake]
+    · simp [hix]
+
+/-- `RwSignal::set` when every subscriber of the signal is an effect -/
+theorem setSignal_eff (f : Nat) (s : State) (id : Nat) (v : Int) (hid : id < s.nodes.length)
+    (hsubs : ∀ x ∈ (s.get id).subs, (s.get x).kind = .eff ∧ x < s.nodes.length ∧ x ≠ id) :
+    (setSignal f s id v).nodes.length = s.nodes.length ∧ (setSignal f s id v).obs = s.obs ∧
+      ∀ i, (setSignal f s id v).get i =
+        if i = id then { s.get id with val := some v, ver := (s.get id).ver + 1 }
+        else if i ∈ (s.get id).subs then wake (s.get i) else s.get i := by
+  unfold setSignal sigNotify
+  generalize hs1 : ((s.upd id fun n => { n with val := some v, ver := n.ver + 1 }).emit (Ev.set id)) = s1
+  have g1 : ∀ i, s1.get i = if i = id then { s.get id with val := some v, ver := (s.get id).ver + 1 } else s.get i := by
+    intro i; rw [← hs1]; simp only [State.emit_get]
+    by_cases hi : i = id
+    · subst hi; rw [State.get_upd_same _ _ hid]; simp
+    · rw [State.get_upd_ne _ _ (Ne.symm hi)]; simp [hi]
+  have hl1 : s1.nodes.length = s.nodes.length := by rw [← hs1]; simp
+  have ho1 : s1.obs = s.obs := by rw [← hs1]; rfl
+  have hsub1 : (s1.get id).subs = (s.get id).subs := by rw [g1]; simp
+  have m := foldl_markDirty_eff f (s1.get id).subs s1 (by
+    intro x hx
+    rw [hsub1] at hx
+    have := hsubs x hx
+    rw [g1, hl1]; simp only [this.2.2, if_false]; exact ⟨this.1, this.2.1⟩)
+  refine ⟨m.1.trans hl1, m.2.1.trans ho1, ?_⟩
+  intro i
+  rw [m.2.2 i, hsub1]
+  by_cases hi : i = id
+  · subst hi
+    have : i ∉ (s.get i).subs := fun hm => (hsubs i hm).2.2 rfl
+    simp only [this, if_false, if_true]; rw [g1]; simp
+  · simp only [hi, if_false]; rw [g1]; simp [hi]
+
+/-! ## `update_if_necessary` of an effect whose sources are signals -/
+
+theorem anySrc_nonmemo (p : Prog) (f e : Nat) : ∀ (l : List Nat) (s : State),
+    (∀ x ∈ l, (s.get x).kind ≠ .memo) → anySrc (upd p f) false e l s = (s, false)
+  | [], s, _ => rfl
+  | x :: rest, s, h => by
+    have hx := h x (by simp)
+    have hu : upd p f s x = (s, false) := by
+      cases f with
+      | zero => rfl
+      | succ f => simp [upd, hx]
+    simp only [anySrc, hu, Bool.false_and, Bool.or_false, Bool.false_eq_true, ↓reduceIte]
+    exact anySrc_nonmemo p f e rest s (fun y hy => h y (by simp [hy]))
+
+theorem effUpdate_clean (p : Prog) (f : Nat) (s : State) (e : Nat) (o : Option Nat)
+    (hd : (s.get e).dirty = false) (hs : ∀ x ∈ (s.get e).sources, (s.get x).kind ≠ .memo) :
+    effUpdate p f { s with obs := o } e = ({ s with obs := o }, false) := by
+  unfold effUpdate
+  simp only [State.setObs_get, hd, Bool.false_eq_true, ↓reduceIte]
+  rw [anySrc_nonmemo p f e _ _ (by intro x hx; exact hs x hx)]
+  simp only [State.setObs_get, hd, Bool.or_false]
+  congr 1
+  refine State.upd_eq_self _ _ _ ?_
+  rw [State.setObs_get]
+  cases hn : s.get e
+  rw [hn] at hd
+  simp only at hd
+  simp [hd]
+
+theorem effUpdate_dirty (p : Prog) (f : Nat) (s : State) (e : Nat) (hd : (s.get e).dirty = true) :
+    effUpdate p f s e = (s.upd e fun n => { n with dirty := false }, true) := by
+  unfold effUpdate; simp [hd]
+
 end Leptos.RView
